@@ -247,7 +247,82 @@ theorem C01_fast_safe_looks (isWord : Nat → Bool) (rcfg : Rx.Config) (pats : L
   have hc := bridge_contract isWord rcfg pats translated accelerated optimize norm shortest m hb hnorm hopt heng hterm
     hsafe hlits
   have hls : LineSafe cfg (bridge m shortest) inp (linesOf cfg (bridge m shortest) inp) :=
+    lineSafe_of_contract L (linesOf_length cfg (bridge m shortest) inp) hlt hc (fun _ _ _ _ => trivial)
+  exact C01_fast_end_to_end (Rx.lookAt isWord) rcfg pats translated accelerated optimize norm shortest m hb hnorm heng
+    cfg inp hbin hs hfast hls (contentClean_byte rcfg cfg inp 10 hterm hlt)
+
+/-- input guard of the Unicode variant: no line's content starts with a UTF-8 continuation byte
+(true of every valid UTF-8 text; finding F24 is exactly the excluded case) -/
+def NoContLines (inp : Bytes) : Prop :=
+  ∀ l ∈ splitLines 10 inp, ∀ b, (content (.byte 10) l)[0]? = some b → Rx.isContByte b = false
+
+theorem winGuard_of_noContLines (cfg : Config) (m : MatcherI) (inp : Bytes) (hlt : cfg.lineTerm = .byte 10)
+    (h : NoContLines inp) : WinGuard 10 inp (linesOf cfg m inp) NoContStart := by
+  have hasb : cfg.lineTerm.asByte = 10 := by rw [hlt]; rfl
+  have L : Layout 10 inp (linesOf cfg m inp) := by
+    have := layout_splitLines cfg.lineTerm.asByte inp (lineSel cfg m)
+    unfold linesOf
+    rw [hasb] at this ⊢; exact this
+  have hlen := linesOf_length cfg m inp
+  intro p j hpj hj
+  have W := window L hlen p j hpj hj
+  by_cases hc0 : (ct 10 (linesOf cfg m inp) j).length = 0
+  · exact Or.inl hc0
+  · right
+    have hpos : 0 < (ct 10 (linesOf cfg m inp) j).length := by omega
+    have hmem : bytesAt (linesOf cfg m inp) j ∈ splitLines 10 inp := by
+      have hj' : j < (splitLines cfg.lineTerm.asByte inp).length := by simpa [linesOf] using hj
+      have : bytesAt (linesOf cfg m inp) j = (splitLines cfg.lineTerm.asByte inp)[j] := by
+        simp [bytesAt, linesOf, hj']
+      rw [this, ← hasb]; exact List.getElem_mem hj'
+    have hct : ct 10 (linesOf cfg m inp) j = content (.byte 10) (bytesAt (linesOf cfg m inp) j) :=
+      withoutTerminator_eq_content _ _
+    have h0 : (ct 10 (linesOf cfg m inp) j)[0]? = some ((ct 10 (linesOf cfg m inp) j)[0]) :=
+      List.getElem?_eq_getElem hpos
+    have hb := h _ hmem _ (by rw [← hct]; exact h0)
+    have hget : (inp.drop (offsetAt (linesOf cfg m inp) p))[offsetAt (linesOf cfg m inp) j - offsetAt (linesOf cfg m inp) p]?
+        = some ((ct 10 (linesOf cfg m inp) j)[0]) := by
+      have h1 : ((inp.drop (offsetAt (linesOf cfg m inp) p)).drop
+          (offsetAt (linesOf cfg m inp) j - offsetAt (linesOf cfg m inp) p))[0]?
+          = (ct 10 (linesOf cfg m inp) j)[0]? := by
+        conv => rhs; rw [← W.slice_eq]
+        rw [List.getElem?_take_of_lt hpos]
+      rw [List.getElem?_drop, Nat.add_zero] at h1
+      rw [h1, h0]
+    rw [List.getD_eq_getElem?_getD, hget]
+    exact hb
+
+/-- **C01, fast path, end to end, including the Unicode word assertions** (ripgrep's default `-w` wraps the
+expression in the Unicode half-word assertions): same statement as `C01_fast_safe_looks` with the guard
+`allLooks (safeLookLF ∨ safeLookU)`, for a word table in which `\n` is not a word character and inputs none of
+whose lines starts with a UTF-8 continuation byte. -/
+theorem C01_fast_safe_looks_unicode (isWord : Nat → Bool) (hw : isWord 10 = false) (rcfg : Rx.Config)
+    (pats : List Bytes) (translated : Rx.Hir)
+    (accelerated : Bool) (optimize : Rx.Seq → Rx.Seq) (norm : Rx.Hir → Rx.Hir) (shortest : Bytes → Option Nat)
+    (m : Rx.MatcherM) (hb : rcfg.build pats translated accelerated optimize norm = .ok m)
+    (hnorm : ∀ h hay s e, Rx.Matches (Rx.lookAt isWord) (norm h) hay s e ↔ Rx.Matches (Rx.lookAt isWord) h hay s e)
+    (hopt : C11.OptimizeCert optimize m.hir ((rcfg.lineTerm.map Rx.LineTerm.bytes).getD []))
+    (heng : C11.EngineSpec (Rx.lookAt isWord) m.hir shortest)
+    (hterm : rcfg.lineTerm = some (.byte 10))
+    (hsafe : Rx.allLooks (fun k => Rx.safeLookLF k || Rx.safeLookU k) m.hir = true)
+    (hlits : ∀ L, m.fastLits = some L → ∀ l ∈ L, l.bytes ≠ [] ∧ 10 ∉ l.bytes)
+    (cfg : Config) (inp : Bytes) (hlt : cfg.lineTerm = .byte 10) (hbin : cfg.binary = .none)
+    (hs : cfg.stopOnNonmatch = false)
+    (hfast : isLineByLineFast cfg (bridge m shortest) (Core.new cfg true) = true)
+    (hcont : NoContLines inp) :
+    reported (sliceByLine cfg (bridge m shortest) allCont inp).events =
+      selectedLines cfg.lineTerm.asByte
+        (userSel (Rx.lookAt isWord) rcfg pats translated cfg.lineTerm cfg.invertMatch) inp := by
+  have hasb : cfg.lineTerm.asByte = 10 := by rw [hlt]; rfl
+  have L : Layout 10 inp (linesOf cfg (bridge m shortest) inp) := by
+    have := layout_splitLines cfg.lineTerm.asByte inp (lineSel cfg (bridge m shortest))
+    unfold linesOf
+    rw [hasb] at this ⊢; exact this
+  have hc := bridge_contract_unicode isWord hw rcfg pats translated accelerated optimize norm shortest m hb hnorm hopt
+    heng hterm hsafe hlits
+  have hls : LineSafe cfg (bridge m shortest) inp (linesOf cfg (bridge m shortest) inp) :=
     lineSafe_of_contract L (linesOf_length cfg (bridge m shortest) inp) hlt hc
+      (winGuard_of_noContLines cfg (bridge m shortest) inp hlt hcont)
   exact C01_fast_end_to_end (Rx.lookAt isWord) rcfg pats translated accelerated optimize norm shortest m hb hnorm heng
     cfg inp hbin hs hfast hls (contentClean_byte rcfg cfg inp 10 hterm hlt)
 
